@@ -374,6 +374,44 @@ func c07Mutate(doc map[string]interface{}, mut string) bool {
 			} else {
 				p[k] = []interface{}{"attacker.example.org"}
 			}
+		case "domain-ctx", "created-ctx", "purpose-ctx":
+			// a proof-local @context that re-defines the option terms: the changed option is mapped to nothing, another
+			// member carries the signed value under the changed option's IRI. Proof options are read in the DOCUMENT's
+			// context, never in one the sender attaches to the proof
+			full := func() map[string]interface{} {
+				return map[string]interface{}{"@vocab": "https://w3id.org/security#", "type": "@type",
+					"created": map[string]interface{}{"@id": "http://purl.org/dc/terms/created",
+						"@type": "http://www.w3.org/2001/XMLSchema#dateTime"},
+					"verificationMethod": map[string]interface{}{"@id": "https://w3id.org/security#verificationMethod", "@type": "@id"},
+					"proofPurpose":       map[string]interface{}{"@id": "https://w3id.org/security#proofPurpose", "@type": "@vocab"}}
+			}
+			ctx := full()
+			switch f[1] {
+			case "domain-ctx":
+				old, ok := p["domain"].(string)
+				if !ok {
+					return false
+				}
+				ctx["domain"], ctx["creator"] = nil, "https://w3id.org/security#domain"
+				p["domain"], p["creator"] = "evil.example", old
+			case "created-ctx":
+				old, ok := p["created"].(string)
+				if !ok {
+					return false
+				}
+				ctx["created"], ctx["creator"] = nil, map[string]interface{}{"@id": "http://purl.org/dc/terms/created",
+					"@type": "http://www.w3.org/2001/XMLSchema#dateTime"}
+				p["created"], p["creator"] = "2031-03-03T03:03:03Z", old
+			default:
+				old, ok := p["proofPurpose"].(string)
+				if !ok {
+					return false
+				}
+				ctx["proofPurpose"], ctx["creator"] = nil, map[string]interface{}{"@id": "https://w3id.org/security#proofPurpose",
+					"@type": "@vocab"}
+				p["proofPurpose"], p["creator"] = "authentication", old
+			}
+			p["@context"] = ctx
 		case "domain-num", "challenge-num":
 			p[strings.TrimSuffix(f[1], "-num")] = 5
 		case "domain-obj", "challenge-obj":
@@ -804,7 +842,8 @@ func c07Gen(r *Rng, tier string) []string {
 			mut = r.Pick([]string{"reorder", "dup", "proof2:foreign", "proof2:altered"})
 		case x < 18:
 			mut = "opt:" + r.Pick([]string{"created", "verificationMethod", "proofPurpose", "domain", "challenge", "domain-arr", "domain-arr",
-				"challenge-arr", "created-arr", "proofPurpose-arr", "verificationMethod-arr", "domain-num", "challenge-num", "domain-obj", "challenge-obj"})
+				"challenge-arr", "created-arr", "proofPurpose-arr", "verificationMethod-arr", "domain-num", "challenge-num", "domain-obj", "challenge-obj",
+				"domain-ctx", "domain-ctx", "created-ctx", "purpose-ctx"})
 		case x < 19:
 			mut = r.Pick([]string{"delproof", "proof2:foreign", "proof2:foreign", "proof2:altered", "addtype:top", "addtype:subject", "addtype:nested",
 				"addcase:Issuer", "addcase:Issuer", "addcase:ID", "addcase:Id", "addcase:IssuanceDate", "addcase:Type",
